@@ -75,9 +75,9 @@ def prepopulate(case, rng):
         elif r < 0.53 and n > 0:
             content = rng.choice([data[:n // 2], data[:n - 1], b"", rng.randbytes(n - 1)])
             label = "shorter file"
-        elif r < 0.58:
-            content, label = data + b"tail", "longer file"
-        elif r < 0.64:
+        elif r < 0.62:
+            content, label = data + rng.choice([b"tail", rng.randbytes(1), rng.randbytes(5000)]), "longer file"
+        elif r < 0.68:
             os.makedirs(os.path.dirname(p), exist_ok=True)
             cl.add("destination: directory of the layout exists")
             continue
@@ -172,6 +172,10 @@ def evaluate(ctx, case, res):
         if x is not None and x[0] == "f" and x[1] == e["length"]:
             ctx.fail("full-length-file-altered", inp, "a destination file that has its full recorded length is never altered",
                      {"path": k, "changed": rc.snap_diff({k: x}, {k: y})})
+        elif x is not None and x[0] == "f" and x[1] > e["length"]:
+            # (C14_full_length_untouched: a destination at least as long as the source is left alone)
+            ctx.fail("longer-file-altered", inp, "a destination file that holds at least its full recorded length is never altered",
+                     {"path": k, "recorded_length": e["length"], "changed": rc.snap_diff({k: x}, {k: y})})
         elif y[1] != e["length"]:
             ctx.fail("written-file-length-differs", inp, "every file written has exactly the length the metafile records",
                      {"path": k, "size": y[1], "recorded_length": e["length"],
